@@ -133,6 +133,14 @@ func VerifHarness_C15_IntegerQuantityToProto() {
 	back, err := ParseDecimal(q.GetValue().GetValue())
 	verifrt.Assert(err == nil && decimal.Decimal(back).Cmp(d) == 0, "quantity-value-preserved")
 	verifrt.Assert(q.GetUnit().GetValue() == unit, "quantity-unit-preserved")
+	// and back: the element converts to the Quantity it was made from
+	again, err2 := From(q)
+	ok := err2 == nil
+	if ok {
+		eq, has := TryEqual(again, Quantity{Decimal(d), unit})
+		ok = eq && has
+	}
+	verifrt.Assert(ok, "quantity-survives-the-round-trip-through-its-element")
 	verifrt.Reach("end")
 }
 
